@@ -49,7 +49,7 @@ func famSeqs(maxLen int) []string {
 func famStratified(run *hx.Run) []string { return famSeqs(run.N(2, 3)) }
 
 func famCount(run *hx.Run) int {
-	return len(famStratified(run))*len(famSyntaxes) + run.N(72, 800)
+	return len(famStratified(run))*len(famSyntaxes) + run.N(72, 500)
 }
 
 func famImp(kind byte, path string) wsgen.Imp {
